@@ -1,6 +1,7 @@
 import RModel.Base.Bytes
 import RModel.Model.History
 import RModel.Model.HistoryTree
+import RModel.Model.HistoryTreeDir
 /-
   driver operation for the history model (C10)
 
@@ -17,10 +18,14 @@ open B History
 
 namespace OpsHistory
 
-abbrev HW := HistoryTree.World
 abbrev HId := History.EId HistoryTree.H
+abbrev FTree := List (Bytes × Bytes)
 
-def idsOf (w : HW) : List HId := w.entries.map (·.id)
+section
+variable {Plan Backup : Type}
+abbrev HW (Plan Backup : Type) := History.World FTree Plan Backup HistoryTree.H
+
+def idsOf (w : HW Plan Backup) : List HId := w.entries.map (·.id)
 
 def idxOf (ids : List HId) (i : HId) : String :=
   match ids.findIdx? (· == i) with
@@ -34,10 +39,10 @@ def showEntry (ids : List HId) (e : Entry HistoryTree.H) : String :=
   | none, .redo o _ => s!"d{k}:{idxOf ids o}"
   | none, _ => s!"a{k}"
 
-def showEntries (w : HW) : String :=
+def showEntries (w : HW Plan Backup) : String :=
   if w.entries.isEmpty then "-" else ",".intercalate (w.entries.map (showEntry (idsOf w)))
 
-def showTree (t : HistoryTree.Tree) : String :=
+def showTree (t : FTree) : String :=
   if t.isEmpty then "-" else ",".intercalate (t.map (fun e => s!"{hexOrDash e.1}={hexOrDash e.2}"))
 
 def showOutcome : Outcome → String
@@ -49,13 +54,13 @@ def showOutcome : Outcome → String
 /-- an id that is never in the history -/
 def noId : HId := .plan ([], 0)
 
-def target? (w : HW) (s : String) : Option (Target HistoryTree.H) :=
+def target? (w : HW Plan Backup) (s : String) : Option (Target HistoryTree.H) :=
   if s == "latest" then some .latest
   else match s.toNat? with
     | some k => some (.id ((idsOf w)[k]?.getD noId))
     | none => none
 
-def cmd? (w : HW) (s : String) : Option (Cmd HistoryTree.H) :=
+def cmd? (w : HW Plan Backup) (s : String) : Option (Cmd HistoryTree.H) :=
   match s.splitOn ":" with
   | ["tick"] => some .tick
   | ["ren", a, b] =>
@@ -65,6 +70,17 @@ def cmd? (w : HW) (s : String) : Option (Cmd HistoryTree.H) :=
   | ["undo", t] => (target? w t).map .undo
   | ["redo", t] => (target? w t).map .redo
   | _ => none
+
+def runCmds (ops : Ops FTree Plan Backup HistoryTree.H) : HW Plan Backup → List String → List String → Option (List String)
+  | _, [], acc => some acc.reverse
+  | w, c :: cs, acc =>
+    match cmd? w c with
+    | none => none
+    | some .tick => runCmds ops (step .current ops w .tick).1 cs acc
+    | some cmd =>
+      let r := step .current ops w cmd
+      runCmds ops r.1 cs (s!"{showOutcome r.2};{showEntries r.1};{showTree r.1.tree}" :: acc)
+end
 
 def file? : List String → Option ((Bytes × Bytes) × List String)
   | n :: c :: rest =>
@@ -83,16 +99,7 @@ def many {α} (f : List String → Option (α × List String)) : Nat → List St
       | none => none
       | some (as, rest') => some (a :: as, rest')
 
-def runCmds : HW → List String → List String → Option (List String)
-  | _, [], acc => some acc.reverse
-  | w, c :: cs, acc =>
-    match cmd? w c with
-    | none => none
-    | some .tick => runCmds (step .current HistoryTree.ops w .tick).1 cs acc
-    | some cmd =>
-      let r := step .current HistoryTree.ops w cmd
-      runCmds r.1 cs (s!"{showOutcome r.2};{showEntries r.1};{showTree r.1.tree}" :: acc)
-
+/-- a workspace with a `/` in some file name runs on the directory instance, a flat one on the flat instance -/
 def histrun : List String → String
   | "T" :: n :: rest =>
     match n.toNat? with
@@ -101,7 +108,11 @@ def histrun : List String → String
       match many file? k rest with
       | none => "bad-req"
       | some (files, cmds) =>
-        match runCmds (HistoryTree.start files 1000) cmds [] with
+        let out :=
+          if files.any (fun f => f.1.contains 47) then
+            runCmds HistoryTreeDir.ops (HistoryTreeDir.start files 1000) cmds []
+          else runCmds HistoryTree.ops (HistoryTree.start files 1000) cmds []
+        match out with
         | none => "bad-req"
         | some [] => "-"
         | some out => " ".intercalate out
